@@ -63,6 +63,7 @@ func managerScenario(w *trace.Writer, seed int64) bool {
 	}
 	inner, _ := connection.NewManager(grpc.WithTransportCredentials(insecure.NewCredentials()))
 	cm := &refusingCM{inner: inner, r: rand.New(rand.NewSource(seed ^ 0x1234)), refuse: []int{0, 0, 15, 40}[r.Intn(4)]}
+	slowCb := r.Intn(3) == 0
 	cb := func(k string) func(string) {
 		return func(t string) { emit(trace.E{"ev": "cb", "t": t, "k": k, "id": 0}) }
 	}
@@ -70,6 +71,9 @@ func managerScenario(w *trace.Writer, seed int64) bool {
 		Connect: cb("connect"), Reset: cb("reset"), Sync: cb("sync"),
 		Update: func(t string, n *pb.Notification) {
 			emit(trace.E{"ev": "cb", "t": t, "k": "update", "id": int(n.GetUpdate()[0].GetVal().GetIntVal())})
+			if slowCb {
+				time.Sleep(2 * time.Millisecond) // a session that takes its time to wind down
+			}
 		},
 		ConnectError:      func(t string, _ error) { emit(trace.E{"ev": "cb", "t": t, "k": "connecterr", "id": 0}) },
 		MonitorError:      func(t string, _ error) { emit(trace.E{"ev": "cb", "t": t, "k": "monitorerr", "id": 0}) },
@@ -97,8 +101,9 @@ func managerScenario(w *trace.Writer, seed int64) bool {
 		s.mu.Unlock()
 	}
 	sr := &pb.SubscribeRequest{Request: &pb.SubscribeRequest_Subscribe{Subscribe: &pb.SubscriptionList{}}}
-	call := func(op, t string, f func() error) {
-		emit(trace.E{"ev": "inv", "op": op, "t": t})
+	var hmu sync.Mutex
+	callAs := func(c, op, t string, f func() error) string {
+		emit(trace.E{"ev": "inv", "c": c, "op": op, "t": t})
 		done := make(chan error, 1)
 		go func() { done <- f() }()
 		select {
@@ -107,14 +112,36 @@ func managerScenario(w *trace.Writer, seed int64) bool {
 			if err != nil {
 				res = "err"
 			}
-			emit(trace.E{"ev": "ret", "op": op, "t": t, "res": res})
+			emit(trace.E{"ev": "ret", "c": c, "op": op, "t": t, "res": res})
+			return res
 		case <-time.After(10 * time.Second):
 			emit(trace.E{"ev": "hang", "what": op + " does not return", "t": t})
+			hmu.Lock()
 			hung = true
+			hmu.Unlock()
 		}
+		return "hang"
 	}
+	call := func(op, t string, f func() error) { callAs("c1", op, t, f) }
 	add := func(t string) {
 		call("Add", t, func() error { return m.Add(t, &tpb.Target{Addresses: []string{home[t].addr}}, sr) })
+	}
+	// remove: the script's Remove; in some scenarios a second controller races an Add of the same target against it.
+	// Reports whether the target is managed afterwards.
+	raceAdds := r.Intn(2) == 0
+	remove := func(t string) bool {
+		if !raceAdds || r.Intn(4) == 0 {
+			call("Remove", t, func() error { return m.Remove(t) })
+			return false
+		}
+		delay := time.Duration(r.Intn(1500)) * time.Microsecond
+		resc := make(chan string, 1)
+		go func() {
+			time.Sleep(delay)
+			resc <- callAs("c2", "Add", t, func() error { return m.Add(t, &tpb.Target{Addresses: []string{home[t].addr}}, sr) })
+		}()
+		call("Remove", t, func() error { return m.Remove(t) })
+		return <-resc == "ok"
 	}
 	active := map[string]bool{}
 	for _, t := range names {
@@ -129,8 +156,11 @@ func managerScenario(w *trace.Writer, seed int64) bool {
 		case x < 4:
 			call("Reconnect", t, func() error { return m.Reconnect(t) })
 		case x < 6:
-			call("Remove", t, func() error { return m.Remove(t) })
-			active[t] = false
+			if active[t] {
+				active[t] = remove(t)
+			} else {
+				call("Remove", t, func() error { return m.Remove(t) })
+			}
 		case x < 8:
 			add(t)
 			active[t] = true
@@ -162,7 +192,9 @@ func managerScenario(w *trace.Writer, seed int64) bool {
 	}
 	for _, t := range names {
 		if active[t] && !hung {
-			call("Remove", t, func() error { return m.Remove(t) })
+			if remove(t) { // the racing Add won: remove the new incarnation as well
+				call("Remove", t, func() error { return m.Remove(t) })
+			}
 		}
 	}
 	// anything arriving now would be a callback after Remove returned
